@@ -630,7 +630,7 @@ func c01R6(c *Ctx) {
 		// the literal's branches field is the parameter
 		okP := false
 		for _, st := range kit.FieldStores(nm, branchesF) {
-			if p, ok := st.Val.(*ssa.Parameter); ok && p.Name() == "branches" {
+			if st.Val == argParam(nm, 1) {
 				okP = true
 			} else {
 				c.R.Fail(r, "newMultiAckNacker: branches field", c.Pos(st.Pos()), "branches field is not initialised from the branches parameter")
